@@ -48,13 +48,13 @@ _P = [
     ('idn?', r'\*IDN\?'),
     ('freq', rf':FREQ ({NUM})'),
     ('freq?', r':FREQ\?'),
-    ('leng', rf':DIG{CH}:PATT:LENG ({INT})'),
+    ('leng', rf':DIG{CH}:PATT:LENG ({NUM})'),      # integer-valued parameters: the value TEXT is validated (see int_value)
     ('leng?', rf':DIG{CH}:PATT:LENG\?'),
     ('type', rf':DIG{CH}:PATT:TYPE (DATA|PRBS)'),
     ('type?', rf':DIG{CH}:PATT:TYPE\?'),
-    ('plen', rf':DIG{CH}:PATT:PLEN ({INT})'),
+    ('plen', rf':DIG{CH}:PATT:PLEN ({NUM})'),
     ('plen?', rf':DIG{CH}:PATT:PLEN\?'),
-    ('bsh', rf':DIG{CH}:PATT:BSH ({INT})'),
+    ('bsh', rf':DIG{CH}:PATT:BSH ({NUM})'),
     ('bsh?', rf':DIG{CH}:PATT:BSH\?'),
     ('data', rf':DIG{CH}:PATT:DATA ({INT}),({INT}),#(.*)'),
     ('data?', rf':DIG{CH}:PATT:DATA\? ({INT}),({INT})'),
@@ -67,6 +67,20 @@ _P = [
     ('offs?', rf':VOLT{CH}:OFFS\?'),
 ]
 PATS = [(k, re.compile(p + r'\Z', re.S)) for k, p in _P]
+
+def int_value(txt):
+    """value text of an integer-valued parameter (pattern length, PRBS order, bit shift) -> (x, whole, n):
+    x = the number the text spells (IEEE-488.2 <NRf>: '7', '7.0', '1e3' all spell whole numbers), whole = x is a whole
+    number, n = what an instrument register holds after the <NRf> -> <NR1> rounding (nearest integer).  The text is never
+    int()-truncated: '9.97' is NOT order 9 and '1000.5' is NOT a length of 1000 bits."""
+    x = float(txt)
+    if x != x or x in (float('inf'), float('-inf')):
+        return x, False, 0
+    if re.fullmatch(INT, txt):
+        return int(txt), True, int(txt)
+    whole = x == np.floor(x)
+    return x, bool(whole), int(np.floor(x + 0.5))
+
 
 RANGE = {'freq': FREQ, 'leng': PLEN, 'skew': SKEW, 'volt': AMPL, 'offs': OFFS}
 REGNAME = {'freq': 'frequency', 'leng': 'pattern-length', 'skew': 'skew', 'volt': 'amplitude', 'offs': 'offset',
@@ -193,12 +207,19 @@ class Fake:
             v = r[kind[:-1]]
             return (v if isinstance(v, str) else repr(v)) + '\n'
         if kind in ('leng', 'bsh', 'plen'):
-            v = int(g[1])
+            x, whole, v = int_value(g[1])
             self.parsed.append((kind, ch, (v,)))
-            if kind == 'leng' and not (PLEN[0] <= v <= PLEN[1]):
-                self.flag('cmd:out-of-range:pattern-length', f'{short!r}: {v} outside {PLEN}')
-            if kind == 'plen' and v not in ORDERS:
-                self.flag('cmd:out-of-range:prbs-order', f'{short!r}: {v} not in {ORDERS}')
+            if not whole:
+                self.stats['non_integral_' + kind] = self.stats.get('non_integral_' + kind, 0) + 1
+            if kind == 'leng':
+                if not (PLEN[0] <= x <= PLEN[1]):
+                    self.flag('cmd:out-of-range:pattern-length', f'{short!r}: {x} outside {PLEN}')
+                elif not whole:
+                    # the documented values are whole numbers of bits (2..2^21, resolution 1 bit)
+                    self.flag('cmd:non-integral:pattern-length', f'{short!r}: {g[1]} is not a whole number of bits in {PLEN[0]}..{PLEN[1]}')
+            if kind == 'plen' and not (whole and v in ORDERS):
+                self.flag('cmd:out-of-range:prbs-order', f'{short!r}: {g[1]} not in {ORDERS}')
+            # kind == 'bsh': the statement lists no limit for the bit shift; a non-integral shift is only counted
             r[kind] = v
             return '\n'
         if kind in ('skew', 'volt', 'offs'):
@@ -304,6 +325,8 @@ SETTERS = {
 }
 FREQ_RTOL = 5.0e-6 * (1 + 1e-9)    # ':FREQ 1.00000e+10' six significant digits
 
+INT_REGS = ('leng', 'bsh', 'plen')      # registers that hold whole numbers
+
 GETTERS = {'get_patt_len': 'leng', 'get_output_voltage': 'volt', 'get_offset': 'offs', 'get_skew': 'skew',
            'get_bits_shift': 'bsh', 'get_prbs_order': 'plen', 'get_mode': 'type'}
 
@@ -337,6 +360,11 @@ def expect_setter(op, val, chs, before: Fake):
             for v in cand[c]:
                 if lim == 'orders':
                     oks.append(order_ok(v, got))
+                elif reg in INT_REGS and isinstance(v, float) and np.isfinite(v) and v != np.floor(v):
+                    # a non-integral request for a whole number of bits: either neighbouring whole number of the clamped
+                    # request (the statement does not say which way it is rounded)
+                    w = v if lim is None else clamp(v, lim[0], lim[1])
+                    oks.append(got in (int(np.floor(w)), int(np.ceil(w))))
                 elif lim is None:
                     oks.append(got == v)
                 else:
